@@ -89,6 +89,19 @@ func parseInt64(bytes []byte) (r int64, e error) {
 	return r, e
 }
 
+// parseSignedInt64 parses the contents octets of an INTEGER or ENUMERATED value:
+// big-endian two's complement (X.690 8.3).
+func parseSignedInt64(bytes []byte) (r int64, e error) {
+	r, e = parseInt64(bytes)
+	if e != nil {
+		return r, e
+	}
+	if n := len(bytes); n > 0 && n < 8 && bytes[0]&0x80 != 0 {
+		r |= -1 << (8 * uint(n))
+	}
+	return r, e
+}
+
 func parseBool(b byte) (bool, error) {
 	return b != 0, nil
 }
@@ -131,8 +144,8 @@ func ParseField(v reflect.Value, bytes []byte, params fieldParameters) error {
 		v.Set(reflect.ValueOf(val))
 		return nil
 	case EnumeratedType:
-		val, parse_err := parseInt64(bytes[talOff:])
-		if err != nil {
+		val, parse_err := parseSignedInt64(bytes[talOff:])
+		if parse_err != nil {
 			return parse_err
 		}
 
@@ -152,7 +165,7 @@ func ParseField(v reflect.Value, bytes []byte, params fieldParameters) error {
 			return nil
 		}
 	case reflect.Int, reflect.Int32, reflect.Int64:
-		if parsedInt, parse_err := parseInt64(bytes[talOff:]); err != nil {
+		if parsedInt, parse_err := parseSignedInt64(bytes[talOff:]); parse_err != nil {
 			return parse_err
 		} else {
 			val.SetInt(parsedInt)
